@@ -42,6 +42,9 @@ Sane(desc, doc) ==
   \* the formatting ids correspond one to one
   /\ LET pairs == {<<D[i][2], P[i][2]>> : i \in 1..Len(D)} IN
        Cardinality(pairs) = Cardinality({x[1] : x \in pairs}) /\ Cardinality(pairs) = Cardinality({x[2] : x \in pairs})
+  \* the pictures the base is described to carry are parts with exactly the described names
+  /\ \A i \in 1..Len(desc.media) : \E x \in RangeOf(doc.parts) : x.c = "media" /\ x.n = "word/media/" \o desc.media[i].name
+  /\ (desc.media # <<>> => Cardinality({x \in RangeOf(doc.parts) : x.c = "media"}) = Len(desc.media))
 
 Judge(e) ==
   IF e.op.op = "Build" THEN
